@@ -389,7 +389,7 @@ def parse_stmt(line):
 
 
 class Func:
-    __slots__ = ('name', 'nargs', 'argtypes', 'ret', 'locals', 'blocks', 'header', 'span', 'self_byref')
+    __slots__ = ('name', 'nargs', 'argtypes', 'ret', 'locals', 'blocks', 'header', 'span', 'self_byref', 'start')
 
     def __init__(self):
         self.locals = {}
@@ -496,6 +496,7 @@ class MirCrate:
         lines = self.lines
         f = Func()
         f.name = name
+        f.start = a          # line of the header in the dump: tells apart equally named bodies (derive output)
         h = lines[a]
         f.header = h
         s = h[3 + len(name):]
